@@ -225,7 +225,7 @@ def r2_log_pairing(ctx):
         return
     v = lp.target.id
     logs = [i for i in walk_ordered(lp) if isinstance(i, ast.If) and norm(i.test) == f"{v}.logarithmic"]
-    ctx.check(len(logs) == 2, sb.qual + "#log-branches", "log handling present in the scalar and in the vector branch" if len(logs) == 2 else f"{len(logs)} `if var.logarithmic` blocks (expected 2)", where=sb, node=logs[0] if logs else lp)
+    ctx.check(len(logs) >= 2, sb.qual + "#log-branches", "log handling present in the scalar and in the vector branch" if len(logs) >= 2 else f"{len(logs)} `if var.logarithmic` blocks (expected one per branch)", where=sb, node=logs[0] if logs else lp)
     for i in logs:
         asg = {dotted(s.targets[0]): s.value for s in i.body if isinstance(s, ast.Assign)}
         pairs = [("low_val", "high_val"), ("low_values", "high_values")]
@@ -234,6 +234,25 @@ def r2_log_pairing(ctx):
             if set(asg) == {lo, hi}:
                 ok = all(isinstance(asg[n], ast.Call) and call_name(asg[n]) in ("math.log10", "np.log10", "numpy.log10") and dotted(asg[n].args[0]) == n for n in (lo, hi))
         ctx.check(ok and not i.orelse, sb.qual + "#log10", "log10 of both bounds" if ok else f"logarithmic variable: log10 not applied to both of its bounds ({sorted(asg)})", where=sb, node=i)
+    # every appended bound passes, on all paths, through a log10 applied under `var.logarithmic`
+    g = ctx.cfg(sb)
+    header = g.node_of(lp)
+    for n in walk_ordered(lp):
+        if isinstance(n, ast.AugAssign) and isinstance(n.op, ast.Add) and dotted(n.target) in ("lbd", "ubd"):
+            src_names = names_in(n.value)
+            covering = []
+            for i in logs:
+                for s_ in i.body:
+                    if isinstance(s_, ast.Assign) and isinstance(s_.value, ast.Call) and call_name(s_.value).endswith("log10"):
+                        tgt = dotted(s_.targets[0])
+                        # the log-converted name feeds the appended value
+                        from sa.astutil import flow_closure
+
+                        if tgt in flow_closure(lp, n.value) and dotted(s_.value.args[0]) == tgt:
+                            covering.append(i)
+            an = g.nodes_of(n)
+            ok = bool(covering) and all(g.all_paths_pass(header, [a_], [x for i in covering for x in g.nodes_of(i)]) for a_ in an)
+            ctx.check(ok, sb.qual + f"#log-path:{dotted(n.target)}@{'vector' if 'values' in norm(n.value) else 'scalar'}", "every path to the append passes the `if var.logarithmic` conversion of that bound" if ok else f"a path appends {norm(n.value)} to {dotted(n.target)} without passing a log10 conversion under `var.logarithmic` (logarithmic variables would get linear bounds)", where=sb, node=n)
     # log10 outside those blocks
     for c in calls_in(lp):
         if call_name(c).endswith("log10") and not any(contains(i, c) for i in logs):
@@ -290,7 +309,7 @@ def r3_per_component_boundaries(ctx):
         ok = un is not None and norm(un) == f"{v}.boundaries"
         for k, src in (("low_values", "low_val"), ("high_values", "high_val")):
             e = asg.get(k)
-            ok = ok and e is not None and norm(e) in (f"np.array([{src}] * len({v}.values))", f"np.full(len({v}.values), {src})")
+            ok = ok and e is not None and f"len({v}.values)" in norm(e) and src in names_in(e) and not [x for x in ast.walk(e) if isinstance(x, ast.Subscript)]
     ctx.check(ok, sb.qual + "#broadcast", "shared pair broadcast to len(values) components" if ok else "shared boundaries are not broadcast to one pair per component", where=sb, node=n1[0] if n1 else lp)
     pv = ctx.func(f"{PV}.__init__")
     gs = raising_ifs(pv.node)
